@@ -688,8 +688,20 @@ impl<F: Read + Write + Seek> Package<F> {
         if !self.tables.contains_key(table_name) {
             not_found!("Table {:?} does not exist", table_name);
         }
-        let stream_name = self.tables.get(table_name).unwrap().stream_name();
+        let table = self.tables.get(table_name).unwrap().clone();
+        let stream_name = table.stream_name();
         if self.comp().exists(&stream_name) {
+            // Release the strings that the table's rows refer to.
+            let rows = {
+                let stream = self.comp_mut().open_stream(&stream_name)?;
+                table.read_rows(stream)?
+            };
+            self.set_finisher();
+            for value_refs in rows.into_iter() {
+                for value_ref in value_refs.into_iter() {
+                    value_ref.remove(&mut self.string_pool);
+                }
+            }
             self.comp_mut().remove_stream(&stream_name)?;
         }
         self.delete_rows(
